@@ -133,8 +133,9 @@ def run_checks(name, patch, checks):
         shutil.rmtree(f"/tmp/seedrun_{name}_evidence", ignore_errors=True)
         # regenerate the source-derived Lean files for /repo itself again
         subprocess.run(["python3", "-m", "vlib.factgen"], cwd=VERIF, env=ENV, stdout=subprocess.DEVNULL, stderr=subprocess.DEVNULL)
-        if os.path.exists(os.path.join(VERIF, "vlib", "accessgen.py")):
-            subprocess.run(["python3", "-m", "vlib.accessgen"], cwd=VERIF, env=ENV, stdout=subprocess.DEVNULL, stderr=subprocess.DEVNULL)
+        for gen in ("accessgen", "transgen", "transgen2", "transgen3"):
+            if os.path.exists(os.path.join(VERIF, "vlib", gen + ".py")):
+                subprocess.run(["python3", "-m", "vlib." + gen], cwd=VERIF, env=ENV, stdout=subprocess.DEVNULL, stderr=subprocess.DEVNULL)
     return verdicts
 
 
